@@ -198,7 +198,7 @@ SPEC = {
     # UsageTables: C02's translator (match-arm / field inventory of gather_usage_*: which fields of every statement / expression /
     # initialiser variant the usage analysis descends into)
     "gens": ["HlslGenTables", "HlslIntrinsicTables", "HlslVecTables", "FmtTables", "ParseTables", "Reserved", "UsageTables"],
-    "lean_modules": ["RsslVerif.Thm.C01", "RsslVerif.Thm.C01Names", "RsslVerif.Thm.C01Vec", "RsslVerif.Thm.C09", "RsslVerif.Thm.C15",
+    "lean_modules": ["RsslVerif.Thm.C01", "RsslVerif.Thm.C01Decl", "RsslVerif.Thm.C01Names", "RsslVerif.Thm.C01Vec", "RsslVerif.Thm.C09", "RsslVerif.Thm.C15",
                      "RsslVerif.Thm.C02"],
     "theorems": [T + n for n in [
         "op_table_is_identity", "op_table_injective", "intrinsic_table_is_identity", "exporter_shape_as_modelled",
@@ -209,6 +209,10 @@ SPEC = {
         # comparisons of a Prim are independent (NaN): the "opposite comparison" is not the negation (seeded mutant C01-3)
         "opposite_comparison_is_not_negation", "ifelse_opposite_condition_changes_meaning",
         "statement_attribute_names_roundtrip",
+        # Thm/C01Decl.lean: modules with function prototypes (FunctionDeclaration arm, only_declare) — the definitions among
+        # the emitted items are genProg of the implementations, a prototype announces the definition's signature
+        "declaration_arms_as_modelled", "definitions_of_module", "gen_sem_module", "prototype_agrees_with_definition",
+        "prototype_without_implementation_is_refused",
         # vector layer (Thm/C01Vec.lean): shape-changing casts, swizzles, numeric constructors, component-wise operators
         "exporter_vec_shape_as_modelled", "swizzle_letters_are_identity", "vector_type_names_roundtrip",
         "vector_intrinsic_table_is_identity", "wide_constants_keep_kind_and_payload",
